@@ -544,4 +544,6 @@ func vh_C04_L7_handshake_result_waits_for_the_connect_call() {
 
 // C04.L8: what is negotiated is read from every parameter of the INIT / INIT ACK, whatever
 // parameters this implementation does not know stand in front of them (= C12.L4).
-func vh_C04_L8_negotiation_reads_past_unknown_parameters() { vh_C12_L4_init_unknown_parameter_is_skipped() }
+func vh_C04_L8_negotiation_reads_past_unknown_parameters() {
+	vh_C12_L4_init_unknown_parameter_is_skipped()
+}
